@@ -21,7 +21,7 @@ from ..textgen import Line
 from . import c06, c08
 
 WS = [" ", "\t", "　", " ", " ", "  "]
-assert all(w.isspace() for w in WS)
+assert all(w.isspace() for w in WS) and "\u2028".isspace()      # MCExtSpace of MC_ZLoadEnv
 
 
 def randcase(rng, s):
